@@ -12,6 +12,7 @@ S(s) == Str(s)
 Args == { Lit(I(1)), Lit(S(<<115>>)), Lit(List(<<I(2), I(3)>>)) }   \* (TLC cannot order two records whose v fields are equally long sequences of different kinds)
 A1 == Lit(I(1))  A2 == Lit(S(<<115>>))
 X == Var("x")
+ErrArg == Bin("/", A1, Lit(I(0)))
 Echo(as) == Call("hecho", as)
 Fail == { Call("herr", <<>>), Call("hval", <<A1>>), Call("htyp", <<A1, A2>>), MCall(A1, "herr", <<>>), Call("hnone", <<A1>>), MCall(A1, "hnone", <<>>) }
 T == Lit(Bool(TRUE))  F == Lit(Bool(FALSE))
@@ -22,6 +23,10 @@ Roots ==
   \cup { Echo(<<Echo(<<a>>), MCall(a, "hecho", <<>>)>>) : a \in Args }
   \cup { Bin("+", Echo(<<A1>>), Echo(<<A2>>)), Idx(Echo(<<A1, A2>>), A1), Call("size", <<Echo(<<A1, A2>>)>>) }
   \cup Fail
+  \* an argument whose evaluation fails: the call is that error (the function is not invoked with a non-value)
+  \cup { Echo(<<ErrArg>>), Echo(<<A1, ErrArg>>), Echo(<<ErrArg, A2>>), MCall(ErrArg, "hecho", <<>>), MCall(A1, "hecho", <<ErrArg>>), Call("hzero", <<ErrArg>>) }
+  \cup { Echo(<<f>>) : f \in Fail } \cup { Bin("||", Echo(<<ErrArg>>), T), Bin("&&", F, MCall(ErrArg, "hecho", <<>>)), CondE(T, A1, Echo(<<ErrArg>>)),
+          CondE(Bin("==", Call("size", <<Echo(<<ErrArg>>)>>), A1), A1, A2), Bin("==", Call("size", <<Echo(<<ErrArg>>)>>), A1) }
   \cup { Bin("||", f, T) : f \in Fail } \cup { Bin("||", T, f) : f \in Fail } \cup { Bin("&&", f, F) : f \in Fail } \cup { Bin("&&", F, f) : f \in Fail }
   \cup { Bin("||", f, F) : f \in Fail } \cup { Bin("&&", T, f) : f \in Fail }
   \cup { CondE(T, A1, f) : f \in Fail } \cup { CondE(F, f, A1) : f \in Fail } \cup { CondE(f, A1, A2) : f \in Fail } \cup { CondE(T, f, A1) : f \in Fail }
@@ -49,5 +54,6 @@ Absorbed == /\ (prog.k = "bin" /\ prog.op = "||" /\ (prog.l = T \/ prog.r = T)) 
             /\ (prog.k = "bin" /\ prog.op = "&&" /\ (prog.l = F \/ prog.r = F)) => exp = Bool(FALSE)
             /\ (prog.k = "cond" /\ prog.c = T /\ prog.a = A1) => exp = I(1)
             /\ (prog \in Fail) => exp = Err
+Strict == (prog.k = "call" /\ prog.f = "hecho" /\ \E j \in 1..Len(prog.args) : prog.args[j] = ErrArg) => (exp = Err /\ calls = <<>>)
 OverrideOnlyWhenSupplied == (prog \in SizeRoots /\ ~ovr) => calls = <<>>
 =============================================================================
